@@ -1,5 +1,8 @@
 import Cello.Fmt
+import Cello.Table
+import Cello.Iter
 import CelloGen.Fmt
+import CelloGen.Table
 import Driver.Common
 /- driver for engine `fmt` (C14).
 
@@ -9,7 +12,14 @@ import Driver.Common
      M <start> <old> <fmt> <nargs> <arg>…                                  format outside the grammar: only "does it leave its buffers?"
      J …same as P…                                                         same run in a forked child of the harness; the grammar additionally admits `%lc`
                                                                            (a specification libc rejects when the "C" locale cannot encode the value)
+     A …same as P…                                                         print_to_with on a plain String in a forked child of the harness; an argument `Z 0` is the
+                                                                           String itself.  `O A oob=1` (undefined behaviour) or `O A oob=0 exc=<e>`
    arg ::= i <int64> | f <16 hex digits: bits of the double> | s <bytes> | A <n> <arg>… | U <n> <arg>… | L <n> <arg>…
+         | H <n> (<key> <val>)*n  Table Int → scalar built by `set` in this order (iteration order = slot order, computed with the
+                                  Table model of engine C02, Cello/Table.lean)   | R <n> (<key> <val>)*n  Tree (iteration order = descending key order)
+         | G 3 i <start> i <stop> i <step>  Range (values from the Range model of engine C11, Cello/Iter.lean)
+         | C <n> <arg>…  Slice over an Array   | X 1 <arg> | X 0  Box   | N 0  NULL   | O <name>  object of a type without Show
+         | Y <name>  Type object   | Z 0  the sink itself (op A only)
    table entry: what libc prints for fragment <frag> with value <val> ::= i<int64> | d<bits> | s<bytes>   (the model's `prim`);
                 <out> = `!` when libc rejects the call (negative result)
 
@@ -63,16 +73,61 @@ def hexNat (s : String) : Option Nat :=
 def hex16 (n : Nat) : String :=
   String.ofList ((List.range 16).map fun k => hexDigit (n / 16 ^ (15 - k) % 16))
 
+def tableCfg : Cello.Table.Cfg :=
+  { ge := CelloGen.Table.tieGe, growEmpty := CelloGen.Table.setGrowsEmpty,
+    ideal := Cello.Table.idealSize CelloGen.Table.primes CelloGen.Table.loadNum CelloGen.Table.loadDen,
+    selfGuard := CelloGen.Table.assignGuardsSelf }
+
+/-- `hash($I(k))` = `(uint64_t)k` -/
+def intHash (k : Int) : Nat := (k % 18446744073709551616).toNat
+
+/-- the pairs of `new(Table, Int, V)` after `set(t, k, v)` for each pair of the op, in slot order -/
+def tableOrder (kvs : List (Int × Obj)) : Option (List (Obj × Obj)) :=
+  let t0 : Except Cello.Table.Fail (Cello.Table.Tab Int Obj) := Cello.Table.fill tableCfg intHash []
+  match kvs.foldl (fun t p => t.bind fun t => Cello.Table.set tableCfg intHash t p.1 p.2) t0 with
+  | .ok t => some ((Cello.Table.foreach t).map fun p => (Obj.int p.1, p.2))
+  | .error _ => none
+
+/-- the pairs of a Tree after `set` for each pair of the op, in its iteration order: DESCENDING keys (Tree_Set descends by
+    `cmp(node key, key) < 0 → left` and the iteration starts at the leftmost node), the last value set for a key -/
+def treeOrder (kvs : List (Int × Obj)) : List (Obj × Obj) :=
+  let ins (acc : List (Int × Obj)) (p : Int × Obj) : List (Int × Obj) :=
+    let hi := acc.filter fun q => q.1 > p.1
+    let lo := acc.filter fun q => q.1 < p.1
+    hi ++ [p] ++ lo
+  (kvs.foldl ins []).map fun p => (Obj.int p.1, p.2)
+
+def rangeVals (a b c : Int) : List Int := ((Cello.Iter.rangeI a b c).forward 100000).1
+
 /-- parse one argument; returns it with the remaining tokens -/
 partial def parseArg : List String → Option (Obj × List String)
   | "i" :: v :: r => v.toInt?.map fun x => (Obj.int x, r)
   | "f" :: b :: r => (hexNat b).map fun x => (Obj.flt x, r)
   | "s" :: h :: r => (unhex h).map fun x => (Obj.str x, r)
+  | "N" :: "0" :: r => some (Obj.null, r)
+  | "Z" :: "0" :: r => some (Obj.sink, r)
+  | "O" :: h :: r => (unhex h).map fun x => (Obj.other x, r)
+  | "Y" :: h :: r => (unhex h).map fun x => (Obj.type x, r)
+  | "X" :: "0" :: r => some (Obj.box .null, r)
+  | "X" :: "1" :: r => do
+    let (a, r) ← parseArg r
+    pure (Obj.box a, r)
+  | "G" :: "3" :: r => do
+    let (items, r) ← parseArgs 3 r
+    match items with
+    | [.int a, .int b, .int c] => pure (Obj.range (rangeVals a b c), r)
+    | _ => none
   | k :: n :: r =>
-    if k = "A" ∨ k = "U" ∨ k = "L" then do
+    if k = "A" ∨ k = "U" ∨ k = "L" ∨ k = "C" then do
       let n ← n.toNat?
       let (items, r) ← parseArgs n r
-      pure ((if k = "A" then Obj.array items else if k = "U" then Obj.tuple items else Obj.list items), r)
+      pure ((if k = "A" then Obj.array items else if k = "U" then Obj.tuple items else if k = "L" then Obj.list items
+             else Obj.slice items), r)
+    else if k = "H" ∨ k = "R" then do
+      let n ← n.toNat?
+      let (items, r) ← parseArgs (2 * n) r
+      let kvs ← pairUp items
+      if k = "H" then (tableOrder kvs).map fun ps => (Obj.table ps, r) else pure (Obj.tree (treeOrder kvs), r)
     else none
   | _ => none
 where
@@ -82,6 +137,10 @@ where
       let (a, r) ← parseArg r
       let (as, r) ← parseArgs n r
       pure (a :: as, r)
+  pairUp : List Obj → Option (List (Int × Obj))
+    | [] => some []
+    | .int k :: v :: r => (pairUp r).map ((k, v) :: ·)
+    | _ => none
 
 def parseVal (s : String) : Option PVal :=
   match s.toList with
@@ -132,6 +191,7 @@ def excName : Outcome → String
   | .raised .FormatError => "FormatError"
   | .raised .ClassError => "ClassError"
   | .raised .OutOfMemoryError => "OutOfMemoryError"
+  | .raised .ValueError => "ValueError"
   | .raised .Fuel => "model-fuel"
   | .oob => "model-oob"
 
@@ -170,15 +230,31 @@ def scalarKind : Obj → Option Nat
   | .str _ => some 2
   | _ => none
 
-/-- what harness/h_fmt.c accepts: no NUL inside strings, Arrays / Lists of scalars of one type, at most 1000 items -/
+/-- what harness/h_fmt.c accepts: no NUL inside strings, Arrays / Lists / Slices of scalars of one type, Tables / Trees with
+    values of one scalar type, at most 1000 items, known type names -/
 partial def validObj : Obj → Bool
   | .str s => !s.contains NUL
-  | .array items | .list items =>
+  | .array items | .list items | .slice items =>
     items.length ≤ 1000 && match items with
       | [] => true
       | a :: _ => (scalarKind a).isSome && items.all fun x => scalarKind x == scalarKind a && validObj x
   | .tuple items => items.length ≤ 1000 && items.all validObj
+  | .table ps | .tree ps =>
+    ps.length ≤ 500 && match ps with
+      | [] => true
+      | (_, v) :: _ => (scalarKind v).isSome && ps.all fun p => scalarKind p.2 == scalarKind v && validObj p.2
+  | .box x => validObj x
+  | .other n => n ∈ ["File", "Ref", "NoShow"].map String.toList
+  | .type n => n ∈ ["Int", "Float", "String", "Array", "List", "Tuple", "Table", "Tree", "File", "Range", "Slice", "Box", "Ref", "Type"].map String.toList
   | _ => true
+
+/-- the destination itself occurs among the arguments (op A only) -/
+partial def hasSink : Obj → Bool
+  | .sink => true
+  | .array items | .list items | .slice items | .tuple items => items.any hasSink
+  | .table ps | .tree ps => ps.any fun p => hasSink p.1 || hasSink p.2
+  | .box x => hasSink x
+  | _ => false
 
 def validOp (op : Op) : Bool :=
   op.start ≤ op.old.length && op.start ≤ 1000000 && !op.old.contains NUL && !op.fmt.contains NUL &&
@@ -216,6 +292,12 @@ def runP (op : Op) (wide : Bool) : IO Unit := do
   let nrej := (rS.out.calls.filter fun c => prim.rej c.frag c.val).length
   IO.println s!"R len={op.fmt.length} rd={rS.marks.rdMax} wr={rS.marks.wrMax} ref={agree} segs={nseg} specs={nsp} args={op.args.length} calls={rS.out.calls.length} rejected={nrej}"
 
+def runA (op : Op) : IO Unit := do
+  let prim := primOf op.tab
+  let r := printTo cfg prim scfg depthFuel op.fmt op.args ⟨.str op.old, op.start, []⟩
+  if r.oc = .oob then IO.println "O A oob=1" else IO.println s!"O A oob=0 exc={excName r.oc}"
+  IO.println s!"R len={op.fmt.length} rd={r.marks.rdMax} wr={r.marks.wrMax} oc={excName r.oc} specs={(op.args.length)} plain={plainArgs depthFuel op.args}"
+
 def runM (op : Op) : IO Unit := do
   let prim := primOf []
   let r := printTo cfg prim scfg depthFuel op.fmt op.args ⟨.str op.old, op.start, []⟩
@@ -231,11 +313,15 @@ def main (args : List String) : IO Unit := do
     match Driver.words l with
     | "P" :: ws | "K" :: ws =>
       match FmtDrv.parseOp ws true with
-      | some op => if FmtDrv.validOp op then FmtDrv.runP op false else IO.println "O bad-op"
+      | some op => if FmtDrv.validOp op && !op.args.any FmtDrv.hasSink then FmtDrv.runP op false else IO.println "O bad-op"
       | none => IO.println "O bad-op"
     | "J" :: ws =>
       match FmtDrv.parseOp ws true with
-      | some op => if FmtDrv.validOp op then FmtDrv.runP op true else IO.println "O bad-op"
+      | some op => if FmtDrv.validOp op && !op.args.any FmtDrv.hasSink then FmtDrv.runP op true else IO.println "O bad-op"
+      | none => IO.println "O bad-op"
+    | "A" :: ws =>
+      match FmtDrv.parseOp ws true with
+      | some op => if FmtDrv.validOp op then FmtDrv.runA op else IO.println "O bad-op"
       | none => IO.println "O bad-op"
     | "M" :: ws =>
       match FmtDrv.parseOp ws false with
